@@ -260,6 +260,26 @@ func init() {
 		},
 		LevelNote: "Proved for every PAC, key and keytab: SignatureData.Unmarshal reads the checksum type as the little-endian word at 0, takes exactly the type's signature length ([MS-PAC] 2.8: 16/12/12/16/24) and returns the buffer with exactly those octets zeroed, everything else (including a trailing RODC identifier) kept; verify / ProcessPACInfoBuffers succeed only with KerbValidationInfo, ClientInfo, server and KDC signature buffers present and the server signature equal to the keyed checksum (usage 17) of its declared type over ZeroSigData; GetPACType reports a PAC without error only if that holds under a keytab key matching the (override) service principal, realm, kvno and etype of the ticket; VerifyAPREQ accepts a request carrying a PAC only then (ghost lastPACBad).",
 	}
+	props["C12"] = &PropDef{
+		Funcs: []string{
+			`(*client.Client).sendToKDC`, `(*client.Client).sendKDCUDP`, `(*client.Client).sendKDCTCP`,
+			`client.dialSendUDP`, `client.dialSendTCP`, `client.sendUDP`, `client.sendTCP`, `client.checkForKRBError`,
+			`(*config.Config).GetKDCs`, `config.randServOrder`,
+		},
+		Kinds:           kinds(contractKinds...),
+		NeedObligations: true,
+		QuickTimeout:    20,
+		Assumptions: []string{
+			"the network is arbitrary: every dial, write and read may fail or return any octets (trusted stdlib contracts for net.DialTimeout, UDPConn/TCPConn, io.ReadFull); ghost variables count connection attempts and transport uses and record each transport's error",
+			"a TCP read may be short (contract of (*net.TCPConn).Read), io.ReadFull reads everything or fails",
+			"KRBError.Unmarshal in checkForKRBError is the trusted ASN.1 decoder: whether reply octets are a KRB-ERROR is arbitrary here",
+		},
+		NotDecided: []string{
+			"'some configured KDC answers correctly => the exchange returns that answer' is stated as: a transport gives up only after every configured server was tried, and the first reply received is returned; the KDC's behaviour itself is outside the code",
+			"per-connection deadlines (timing) and what the DNS SRV look-up returns",
+		},
+		LevelNote: "Proved for every configuration, request and network behaviour: dialSendUDP / dialSendTCP try the servers in the order GetKDCs returned, return the first reply received and fail only after exactly len(kdcs) connection attempts (and terminate); sendTCP reads the complete 4-octet length header and the complete reply; sendToKDC uses TCP only when udp_preference_limit is 1, UDP first for requests up to the limit and TCP first otherwise, returns success exactly when the last transport used succeeded, surfaces a KRB-ERROR with the KDC's error code, and falls back to the other transport after a KRB-ERROR only for UDP's KRB_ERR_RESPONSE_TOO_BIG; GetKDCs returns every configured server once (set level) under keys 1..n.",
+	}
 	props["C17"] = &PropDef{
 		Funcs: []string{
 			`(*gssapi.WrapToken).Marshal`, `(*gssapi.WrapToken).Unmarshal`, `(*gssapi.WrapToken).computeCheckSum`, `(*gssapi.WrapToken).Verify`,
